@@ -8,7 +8,8 @@
    Objects are (shape, flat C-order list); a rotation is (quaternion, improper
    flag) as in Model/Quat.v.  The model is FAITHFUL to /repo as it is: both
    Orientation paths compute other x ~self and transpose the two groups of axes
-   to self.shape ++ other.shape; the lazy one ignores improper flags. *)
+   to self.shape ++ other.shape; the lazy one keeps the proper symmetry elements
+   only and ignores the improper flags of the orientations. *)
 From Coq Require Import ZArith List Bool.
 From Verif Require Import Scalar NdIndex QuatKernels Conversions Quat RotArr C18Dask C18Nd.
 Import ListNotations.
@@ -80,9 +81,13 @@ Definition lmax0 (l : list T) : T := fold_right (fun x m => o_max O x m) (o_ofZ 
 Definition sym_term_eager (m s : rot) : T :=
   if xorb (snd m) (snd s) then o_ofZ O 0 else o_min O (o_ofZ O 1) (o_abs O (qdot O (fst m) (fst s))).
 Definition sym_dot_eager (S : list rot) (m : rot) : T := lmax0 (map (sym_term_eager m) S).
-(* da.einsum(M, symmetry.data) then da.max(abs(.)): flags never looked at *)
-Definition sym_dot_lazy (S : list rot) (m : quat) : T :=
+(* da.einsum(M, symmetry.data) then da.max(abs(.)) *)
+Definition sym_dot_all (S : list rot) (m : quat) : T :=
   lmax0 (map (fun s => o_abs O (qdot O m (fst s))) S).
+(* Orientation._dot_outer_dask: symmetry = symmetry[~symmetry.improper] first;
+   the flags of the two orientations are never looked at *)
+Definition sym_dot_lazy (S : list rot) (m : quat) : T :=
+  sym_dot_all (filter (fun s => negb (snd s)) S) m.
 
 (* order = range(other.ndim, other.ndim + self.ndim) + range(other.ndim), in both modes *)
 Definition eager_order (ns no : nat) : list nat := seq no ns ++ seq 0 no.
@@ -134,7 +139,7 @@ Definition mis_dm_with (h : T -> T) (red : list T -> T) (M2 : list quat) (s : li
   tab (s ++ s) (fun ij =>
     let i := firstn (length s) ij in let j := skipn (length s) ij in
     h (red (map (fun a => red (map (fun b =>
-         sym_dot_lazy S (aget (zq O) sM2 M2 (a :: i ++ [b] ++ j))) (seq 0 nS))) (seq 0 nS)))).
+         sym_dot_all S (aget (zq O) sM2 M2 (a :: i ++ [b] ++ j))) (seq 0 nS))) (seq 0 nS)))).
 
 Definition mis_M1 (X S : list rot) : list quat :=
   outer (qmul O) (outer (qmul O) (map fst S) (map fst X)) (map fst S).
